@@ -90,6 +90,28 @@ impl Concurrent<VirtualSystem> {
                     }
                 }
             }
+
+            // The event that has completed the select call may have halted the process at the
+            // same time (for example, a signal sent by a child process that has then exited),
+            // so we need to check the process state again before resuming the task.
+            let state = self.inner.current_process().state();
+            match state {
+                ProcessState::Running => {
+                    // Resume the task.
+                }
+                ProcessState::Halted(result) => {
+                    if result.is_stopped() {
+                        // The process is stopped, so the task must not be resumed yet.
+                        let terminated = self.inner.block_while_stopped().await;
+                        if !terminated {
+                            // The process has been resumed, so we can continue running the task.
+                            continue;
+                        }
+                    }
+                    // The process has been terminated, so we simply abort the task.
+                    return;
+                }
+            }
         }
     }
 }
@@ -368,6 +390,30 @@ mod tests {
         assert_eq!(future.as_mut().poll(&mut context), Pending);
         assert!(!dropped.get());
 
+        _ = system.inner.current_process_mut().raise_signal(SIGKILL);
+        assert_eq!(future.as_mut().poll(&mut context), Ready(()));
+        assert!(dropped.get());
+    }
+
+    #[test]
+    fn run_virtual_aborts_without_resuming_task_when_process_is_terminated_as_select_completes() {
+        let (system, now) = virtual_system_with_current_time();
+        let dropped = Rc::new(Cell::new(false));
+        let mut future = pin!(system.run_virtual(async {
+            let _drop_flag = DropFlag(Rc::clone(&dropped));
+            system.sleep(Duration::from_secs(1)).await;
+            unreachable!("task should be aborted while sleeping");
+        }));
+
+        let mut context = Context::from_waker(Waker::noop());
+        assert_eq!(future.as_mut().poll(&mut context), Pending);
+        assert!(!dropped.get());
+
+        system
+            .inner
+            .state
+            .borrow_mut()
+            .advance_time(now + Duration::from_secs(1));
         _ = system.inner.current_process_mut().raise_signal(SIGKILL);
         assert_eq!(future.as_mut().poll(&mut context), Ready(()));
         assert!(dropped.get());
